@@ -2,6 +2,7 @@ package main
 
 import (
 	"fmt"
+	"go/types"
 	"os"
 	"sort"
 	"strings"
@@ -269,8 +270,37 @@ func ruleR3(p *Prog, r *Report) {
 					}
 					objs := t.obj(args[0])
 					if allColl(objs) {
-						r.Ok(R, "merge-removes-right:"+name, p.InstrPos(in), "merged-away slab is a member of a not-yet-stored batch collection: it has no register")
+						// a member of a batch collection has no register only if no member was stored since the
+						// collection was (re)built: walk back to the last rebuild (a call returning a slice of slabs) or entry
+						storedBefore := ""
+						storeOf := storeInstrs(objs)
+						entry := f.Blocks[0].Instrs[0]
+						reachBackFrom(f, in, func(y ssa.Instruction) bool {
+							if storedBefore != "" {
+								return true
+							}
+							if storeOf[y] {
+								storedBefore = p.InstrPos(y)
+								return true
+							}
+							if c, ok := y.(*ssa.Call); ok {
+								res := c.Type()
+								if tup, ok := res.(*types.Tuple); ok && tup.Len() > 0 {
+									res = tup.At(0).Type()
+								}
+								if sl, ok := res.Underlying().(*types.Slice); ok && isSlabT(sl.Elem()) {
+									return true // collection rebuilt from fresh slabs
+								}
+							}
+							return y == entry
+						})
 						rows["merge"]++
+						if storedBefore == "" {
+							r.Ok(R, "merge-removes-right:"+name, p.InstrPos(in), "merged-away slab is a member of a batch collection none of whose members has been stored since it was built: it has no register")
+							return
+						}
+						bad := openPath(f, in, removeInstrs(objs), nil)
+						r.Decide(bad == nil, R, "merge-removes-right:"+name, p.InstrPos(in), "the slab merged away is removed from storage on every success path", "members of the batch collection were already stored at "+storedBefore+" when the last slab is merged away, and its register is never removed: an orphan slab stays in storage")
 						return
 					}
 					rows["merge"]++
@@ -338,6 +368,101 @@ func ruleR3(p *Prog, r *Report) {
 				}
 			}
 		})
+		// inlined => not stored: a data slab that may be inlined is written to storage only on the not-inlined edge
+		if rn := recvName(f); (rn == "ArrayDataSlab" || rn == "MapDataSlab" || isHandleType(rn)) && len(f.Params) > 0 {
+			tt := &tsFunc{e: e, fn: f, memo: map[ssa.Value][]string{}, busy: map[ssa.Value]bool{}, rootAlias: map[string]string{}, idOf: map[string][]ssa.Value{}}
+			tt.exitRoots = map[string]string{}
+			tt.takeover = map[string]string{}
+			eachInstr(f, func(y ssa.Instruction) {
+				if st, ok := y.(*ssa.Store); ok {
+					if fa, ok := st.Addr.(*ssa.FieldAddr); ok && isHandleT(fa.X.Type()) && !isFreshBase(fa.X) {
+						if _, nm := structFieldName(fa.X.Type(), fa.Field); nm == "root" {
+							tt.rootStores = append(tt.rootStores, st)
+						}
+					}
+				}
+			})
+			for _, st := range tt.rootStores {
+				for _, h := range tt.obj(st.Addr.(*ssa.FieldAddr).X) {
+					for _, o := range tt.obj(st.Val) {
+						tt.exitRoots[o] = "root(" + h + ")"
+					}
+				}
+			}
+			tt.memo = map[ssa.Value][]string{}
+			eachInstr(f, func(in ssa.Instruction) {
+				c, ok := p.isCallToFunc(in, "storeSlab")
+				if !ok {
+					return
+				}
+				x := c.Common().Args[1]
+				for _, o := range tt.obj(x) {
+					mayInline := false
+					switch {
+					case o == "P0" && !isHandleType(rn):
+						mayInline = true
+					case o == "root(P0)":
+						mayInline = true
+					case strings.HasPrefix(o, "A:ArrayDataSlab") || strings.HasPrefix(o, "A:MapDataSlab"):
+						// literal: does it carry an inlined flag that is not constant false?
+						var al *ssa.Alloc
+						eachInstr(f, func(y ssa.Instruction) {
+							if a, ok := y.(*ssa.Alloc); ok {
+								for _, k := range tt.obj0(a) {
+									if k == o {
+										al = a
+									}
+								}
+							}
+						})
+						if al != nil {
+							if v := litField(f, al, "inlined"); v != nil {
+								if cst, ok := v.(*ssa.Const); !ok || cst.Value == nil || cst.Value.String() != "false" {
+									mayInline = true
+								}
+							}
+						}
+					}
+					// a slab that receives a fresh id here becomes a child of a new index root: children are never inlined
+					for _, ev := range evs {
+						if ev.Kind == "REKEY" && ev.Obj == o {
+							mayInline = false
+						}
+					}
+					if !mayInline {
+						continue
+					}
+					rows["inlined-not-stored"]++
+					guarded := false
+					// on the not-inlined edge of a test of this object's inlined state
+					for _, b := range f.Blocks {
+						ifi, ok := b.Instrs[len(b.Instrs)-1].(*ssa.If)
+						if !ok {
+							continue
+						}
+						if se := tt.inlinedTrueEdge(ifi, o); se >= 0 && edgeDominates(b, 1-se, in.Block()) {
+							guarded = true
+						}
+					}
+					// or after `x.inlined = false`
+					eachInstr(f, func(y ssa.Instruction) {
+						if st, ok := y.(*ssa.Store); ok {
+							if fr, ok := asFieldAddr(st.Addr); ok && fr.Field == "inlined" {
+								if cst, ok := st.Val.(*ssa.Const); ok && cst.Value != nil && cst.Value.String() == "false" && instrDominates(st, in) {
+									for _, k := range tt.obj(fr.Base) {
+										if k == o {
+											guarded = true
+										}
+									}
+								}
+							}
+						}
+					})
+					r.Decide(guarded, R, "inlined-not-stored:"+name, p.InstrPos(in), "the slab is written to storage only when it is not inlined (or right after being uninlined)",
+						"a data slab that may currently be inlined in its parent is written to storage: the same slab would be owned twice (embedded in the parent and as a register nobody references)")
+				}
+			})
+		}
 		// external collision group: collapse / pop removes the group's slab
 		if recvName(f) == "externalCollisionGroup" && len(f.Params) > 0 {
 			S := map[ssa.Instruction]bool{}
@@ -401,6 +526,7 @@ func ruleR3(p *Prog, r *Report) {
 	r.Floor(R, "uninline flips", 2, rows["uninline"])
 	r.Floor(R, "root promotions", 2, rows["promote"])
 	r.Floor(R, "external collision group removals", 2, rows["extgroup"])
+	r.Floor(R, "stores of possibly-inlined data slabs", 8, rows["inlined-not-stored"])
 }
 
 func allColl(objs []string) bool {
